@@ -30,6 +30,16 @@ CONSTANTS
   FBotch = 1
   FUse = 1
   FailMtls = {FALSE}
-  Extra = {"rot", "rrot", "client", "rfail"}
-INVARIANTS TypeOK Undisturbed Fresh ConfigKept CAFollows JudgedAsConfigured Authenticated ClientFollowsRoots Emit
+  ResConn = 2
+  ResReload = 1
+  ResRotate = 1
+  ResUse = 1
+  ResMtls = {FALSE, TRUE}
+  RResConn = 2
+  RResReload = 1
+  RResRotate = 1
+  RResUse = 1
+  RResMtls = {FALSE, TRUE}
+  Extra = {"rot", "rrot", "client", "rfail", "res", "rres"}
+INVARIANTS TypeOK Undisturbed Fresh ConfigKept CAFollows JudgedAsConfigured TicketsOfThisConfiguration Authenticated ClientFollowsRoots Emit
 CHECK_DEADLOCK FALSE
